@@ -36,7 +36,7 @@ def tableFull (st : St) (i f : Nat) : Bool :=
 def step (st : St) (t : List String) : Option (St × String) :=
   match t with
   | "hnew" :: be :: _ =>
-      let (n, v) := if be == "vsbx2" then (2, true) else if be == "vsbx8" then (8, true) else (64, false)
+      let (n, v) := if be == "vsbx2" then (2, true) else if be == "vsbx8" ∨ be == "vsbx8n" then (8, true) else (64, false)
       some ({ w := World.init n, vsbx := v, dead := false, brk := [16, 16, 16] }, "ok")
   | ["hend"] => some (st, "ok")     -- end of a history: every created sandbox can be destroyed
   | _ =>
